@@ -210,6 +210,17 @@ SMALL_TX = [["tx", [1, 0, 1, 0, 2, "a"], True], ["tx", [1, 0, 1, 0, 2, "b"], Fal
             ["tx", [9, 0, 1, 0, 2, "c"], True]]
 
 
+def with_ack(op: list) -> list:
+    """The same received line with the ack flag set (an echo / acknowledgement request): no handler may depend on it."""
+    if op[0] != "rx":
+        return op
+    parts = op[1].split(";", 5)
+    if len(parts) < 6:
+        return op
+    parts[3] = "1"
+    return ["rx", ";".join(parts)]
+
+
 def exists_in(older: str, op: list) -> bool:
     if op[0] != "rx":
         return True
@@ -234,11 +245,18 @@ def cases(ctx):
                 if ctx.mine():
                     count += 1
                     yield {"pair": [older, newer], "steps": prefix + [sym, ["rx", "1;0;1;0;2;probe\n"]]}
+                    if sym[0] == "rx":
+                        count += 1
+                        yield {"pair": [older, newer], "steps": prefix + [with_ack(sym), ["rx", "1;0;1;0;2;probe\n"]]}
         alphabet = [op for op in ([["rx", s + "\n"] for s in SMALL] + SMALL_TX) if exists_in(older, op)]
-        for a, b in itertools.product(alphabet, repeat=2):
+        for k, (a, b) in enumerate(itertools.product(alphabet, repeat=2)):
             if ctx.mine():
                 count += 1
-                yield {"pair": [older, newer], "steps": STATES["child"][:2] + [a, b, ["rx", "1;0;2;0;2;\n"]]}
+                if k % 4 == 1:
+                    a = with_ack(a)
+                elif k % 4 == 2:
+                    b = with_ack(b)
+                yield {"pair": [older, newer], "steps": STATES["child"][:2] + [a, b, ["rx", f"1;0;2;{k // 4 % 2};2;\n"]]}
     ctx.exhaustive["type-table-and-2-step-cases"] = count
     from ..histories import HistoryGen
 
@@ -263,6 +281,8 @@ def cases(ctx):
                     if rng.random() < 0.5:
                         line = head + ";" + rng.choice(PAYLOADS)
                     op = ["rx", line + "\n"]
+                    if rng.random() < 0.15:
+                        op = with_ack(op)
                     parsed = split_line(op[1])
                     if parsed and not (parsed[0] == 0 and parsed[1] == 255 and parsed[2] == 0) and exists_in(older, op):
                         steps.append(op)
